@@ -829,3 +829,197 @@ func c10DeclareDispatch(c *Ctx, r *Report, clause string) {
 		"%token → parseTokendef, %left/%right/%nonassoc/%precedence → parsePrecList, %type → parseTypeList, %start → parseStartSymbol; each result is kept",
 		strings.Join(bad, "; "))
 }
+
+// c01StackPrimitives — the LR stack of every Go skeleton: PushStateSym stores the entry at the pointer (appending
+// when the pointer is at the end) and then raises the pointer by one; PopStateSym(n) lowers the pointer by n and does
+// nothing else; the driver reads the top as the entry at pointer − 1. The two hand-written templates are compared
+// with each other by C08.a; this rule states what both must be, so that a change made consistently to both copies
+// is noticed as well.
+func c01StackPrimitives(c *Ctx, r *Report, clause string, st *Staged) {
+	norm := func(s string) string {
+		s = strings.NewReplacer("main.", "", "c.StackSym", "STACK", "c.Stackpos", "SP", "StateSymStack", "STACK", "StackPointer", "SP").Replace(s)
+		return s
+	}
+	for _, sk := range quickSkeletons(st) {
+		if sk.File == nil || sk.Pkg == nil || len(sk.TypeErs) > 0 {
+			continue
+		}
+		name := "skeleton " + sk.V.Name
+		recv := map[bool]string{true: "Context", false: ""}[sk.V.Object]
+		// push
+		if push := sk.FuncDecl(recv, "PushStateSym"); push == nil {
+			r.Fail(clause, "R4 DECISION-TABLE", name+"/PushStateSym", sk.pos(token.NoPos), "no PushStateSym")
+		} else {
+			pe := newPathEnum(sk.Info)
+			paths, err := pe.Enumerate(push.Body.List)
+			why := ""
+			if err != nil {
+				why = err.Error()
+			}
+			if len(paths) != 2 {
+				why = fmt.Sprintf("%d paths, expected the two cases `pointer at the end` / `pointer inside`", len(paths))
+			}
+			for _, p := range paths {
+				atEnd, decided := false, false
+				for _, cd := range p.Conds {
+					a := norm(cd.Atom.String())
+					switch a {
+					case "(SP >= len(STACK))":
+						decided, atEnd = true, cd.Pol
+					case "(SP < len(STACK))":
+						decided, atEnd = true, !cd.Pol
+					case "(SP == len(STACK))":
+						decided, atEnd = true, cd.Pol
+					}
+				}
+				if !decided {
+					why = "the store is not chosen by comparing the pointer with the stack's length (`pointer >= len`)"
+					continue
+				}
+				var stores []string
+				for _, e := range p.Effects {
+					if e.Kind == "store" {
+						stores = append(stores, norm(e.String()))
+					}
+				}
+				want := "STACK[SP] = *state"
+				if atEnd {
+					want = "STACK = append(STACK, *state)"
+				}
+				ok := len(stores) == 2 && stores[0] == want && (stores[1] == "SP = (SP + 1)")
+				if !ok {
+					why = fmt.Sprintf("with the pointer %s the push performs %v, expected [%s, SP = (SP + 1)]", map[bool]string{true: "at the end", false: "inside the stack"}[atEnd], stores, want)
+				}
+			}
+			r.Check(why == "", clause, "R4 DECISION-TABLE", name+"/PushStateSym", sk.pos(push.Pos()),
+				"push: entry stored at the pointer (appended when the pointer is at the end), then pointer + 1", why)
+		}
+		// pop
+		if pop := sk.FuncDecl(recv, "PopStateSym"); pop == nil {
+			r.Fail(clause, "R4 DECISION-TABLE", name+"/PopStateSym", sk.pos(token.NoPos), "no PopStateSym")
+		} else {
+			pe := newPathEnum(sk.Info)
+			paths, err := pe.Enumerate(pop.Body.List)
+			why := ""
+			if err != nil || len(paths) != 1 {
+				why = "PopStateSym is not straight-line"
+			} else {
+				var stores []string
+				for _, e := range paths[0].Effects {
+					if e.Kind == "store" {
+						stores = append(stores, norm(e.String()))
+					}
+				}
+				if len(stores) != 1 || stores[0] != "SP = (SP - num)" {
+					why = fmt.Sprintf("pop(num) performs %v, expected [SP = (SP - num)]", stores)
+				}
+			}
+			r.Check(why == "", clause, "R4 DECISION-TABLE", name+"/PopStateSym", sk.pos(pop.Pos()), "pop(n): pointer − n and nothing else", why)
+		}
+		// top of stack in the driver
+		if parser := sk.FuncDecl(recv, "Parser"); parser != nil {
+			nTop, bad := 0, ""
+			ast.Inspect(parser.Body, func(n ast.Node) bool {
+				u, ok := n.(*ast.UnaryExpr)
+				if !ok || u.Op != token.AND {
+					return true
+				}
+				ix, ok := unparen(u.X).(*ast.IndexExpr)
+				if !ok {
+					return true
+				}
+				if norm(printNode(sk.Fset, ix.X)) != "STACK" {
+					return true
+				}
+				nTop++
+				if got := norm(oneLine(printNode(sk.Fset, ix.Index))); got != "SP-1" && got != "SP - 1" {
+					bad = "the driver takes &stack[" + got + "] as the top entry, the top is at pointer − 1"
+				}
+				return true
+			})
+			r.Check(bad == "" && nTop >= 2, clause, "R13 AFFINE", name+"/Parser/top-is-pointer-minus-1", sk.pos(parser.Pos()),
+				fmt.Sprintf("all %d places where the driver looks at the top of the stack use the entry at pointer − 1", nTop), bad)
+			// loop guards: stop on pointer == 0 or pointer > len (never true in a sound run)
+			d := analyseDriver(sk)
+			if d.err == "" && d.loop != nil {
+				var guards []string
+				for _, stt := range d.loop.Body.List {
+					is, ok := stt.(*ast.IfStmt)
+					if !ok || len(is.Body.List) != 1 {
+						break
+					}
+					if br, ok := is.Body.List[0].(*ast.BranchStmt); !ok || br.Tok != token.BREAK {
+						break
+					}
+					guards = append(guards, norm(oneLine(printNode(sk.Fset, is.Cond))))
+				}
+				okG := true
+				for _, g := range guards {
+					if g != "SP == 0" && g != "SP > len(STACK)" {
+						okG = false
+					}
+				}
+				r.Check(okG, clause, "R4 DECISION-TABLE", name+"/Parser/loop-guards", sk.pos(d.loop.Pos()),
+					fmt.Sprintf("the driver loop is left early only for an empty stack or a pointer beyond the stack (%v): neither happens while entries are on the stack", guards),
+					fmt.Sprintf("the driver loop's early exits are %v: a parse can end silently (returning nil) in an ordinary configuration", guards))
+			}
+		}
+	}
+}
+
+// c01StackPrimitivesTS — the same statement for the TypeScript driver (token level): PushStateSym, PopStateSym, the
+// loop header of Parser and the two reads of the top entry are compared with their canonical forms.
+func c01StackPrimitivesTS(c *Ctx, r *Report, clause string, st *Staged) {
+	if st.TS == nil || st.TS.LexEr != "" {
+		return
+	}
+	want := map[string]string{
+		"PushStateSym": "if(StackPointer>=StateSymStack.length){expr StateSymStack.push(state);}else{StateSymStack[StackPointer]=state;}StackPointer++;",
+		"PopStateSym":  "StackPointer-=num;",
+	}
+	for name, w := range want {
+		f := st.TS.Funcs[name]
+		if f == nil {
+			r.Fail(clause, "TS DRIVER", "typescript/"+name, "Builder/TsGenCode.go", "no function "+name+" in the TypeScript output")
+			continue
+		}
+		got := tsCanon(f.Body)
+		r.Check(got == w, clause, "TS DRIVER", "typescript/"+name, "Builder/TsGenCode.go (StateFunc literal)",
+			name+" is `"+w+"` (token-level comparison)", name+" is `"+got+"`, expected `"+w+"`")
+	}
+	if f := st.TS.Funcs["Parser"]; f != nil {
+		got := tsCanon(f.Body)
+		why := ""
+		head := "while(true){if(StackPointer==0){break ;}if(StackPointer>StateSymStack.length){break ;}let state=StateSymStack[StackPointer-1];"
+		switch {
+		case !strings.Contains(got, head):
+			why = "the driver loop does not start with `while(true){ if(pointer==0) break; if(pointer>length) break; let state = stack[pointer-1] …`"
+		case !strings.Contains(got, "let SymTy=ReduceFunc(-action);state=StateSymStack[StackPointer-1];"):
+			why = "after ReduceFunc the top entry is not re-read as stack[pointer-1]"
+		case strings.Count(got, "StateSymStack[") != 2:
+			why = "the driver reads the stack at other places than the two top-of-stack reads"
+		}
+		r.Check(why == "", clause, "TS DRIVER", "typescript/Parser/loop-head-and-top", "Builder/TsGenCode.go (StateFunc literal)",
+			"endless loop left only for an empty / overrun stack; the top entry is stack[pointer−1], re-read after a reduction", why)
+	}
+	// the StateSym constructor stores both of its arguments (class members are not in the function table: token level)
+	{
+		var b strings.Builder
+		for _, t := range st.TS.Toks {
+			b.WriteString(t.text)
+		}
+		src := b.String()
+		i := strings.Index(src, "constructor(")
+		ok := false
+		got := ""
+		if i >= 0 {
+			j := strings.Index(src[i:], "}")
+			if j > 0 {
+				got = src[i : i+j+1]
+				ok = strings.Contains(got, "this.Yystate=Yystate") && strings.Contains(got, "this.YySymIndex=YySymIndex")
+			}
+		}
+		r.Check(ok, clause, "TS DRIVER", "typescript/StateSym.constructor", "Builder/TsGenCode.go",
+			"new StateSym(state, symbol) stores both arguments", "the StateSym constructor is `"+got+"`: the state or the symbol of a new entry is lost")
+	}
+}
